@@ -239,6 +239,7 @@ func Exit() {
 		s.mu.Lock()
 		th.done = true
 		s.mu.Unlock()
+		ownLoopExit(th)
 	}
 }
 
